@@ -975,12 +975,9 @@ impl<T, S: Status> FusedIterator for Drain<'_, T, S> {}
 
 impl<T, S: Status> Drop for Drain<'_, T, S> {
     fn drop(&mut self) {
-        while self.len != 0 {
-            let next = self.iter.next();
-            debug_assert!(next.is_some());
-            // SAFETY: The remaining part of the slice has at least `self.len`
-            // elements by invariant
-            let slot = unsafe { next.unwrap_unchecked() };
+        // Reset all remaining slots, including tombstones behind the last
+        // entry: `RawTable::drain()` already counted every slot as free.
+        for slot in &mut self.iter {
             let status = slot.status;
             slot.status = S::FREE;
             if status.is_hash() {
